@@ -32,6 +32,14 @@ def replay_select(ctx, p, loop):
             sources.append(a)
     elif it[0] == "rows":
         return it[1], []
+    elif it[0] == "comp":
+        # [f(row) for row in rows]: collected by a comprehension
+        if it[4]:
+            return None, []          # filtered in Python
+        r = strip_wrappers(it[3])
+        if r[0] == "rows":
+            return r[1], []
+        return None, []
     sites = set()
     for a in sources:
         el = a["elem"]
@@ -198,8 +206,8 @@ def run(ctx):
                    "mailbox row deleted in the same transaction (%s)" % (
                        st.where.render() if st.where else "no WHERE"),
                    render_path(p.events) if not ok else None)
-    ctx.require("R01.codel", nret, 2, "mailbox retirement sites (DELETE FROM mailboxes)")
-    ctx.require("R01.codel", ndel, 2, "DELETE FROM messages sites")
+    ctx.require("R01.codel", nret, 1, "mailbox retirement sites (DELETE FROM mailboxes)")
+    ctx.require("R01.codel", ndel, 1, "DELETE FROM messages sites")
     # live handles
     e4 = e4mod.get(model)
     n4 = 0
